@@ -94,6 +94,14 @@ func Load(path string) error {
 	return nil
 }
 
+// LoadEmpty installs a case without inputs (translator self-tests take theirs from sym.Opaque*).
+func LoadEmpty() {
+	Current = &Case{}
+	pos, envPos, sigPos = 0, 0, 0
+	verifiedDids = nil
+	FailedAsserts, PassedAsserts, KFHits, Covers, AssumeFailed = nil, nil, nil, nil, nil
+}
+
 func next(name string) json.RawMessage {
 	if Current == nil {
 		panic("sym: no case loaded")
@@ -142,6 +150,11 @@ func Int32(name string) int32   { return int32(asInt(next(name)).Int64()) }
 func Uint8(name string) uint8   { return uint8(asInt(next(name)).Uint64()) }
 func Int(name string) int       { return int(asInt(next(name)).Int64()) }
 func String(name string) string { return asString(next(name)) }
+
+// Opaque*: natively the value itself (see sym_gosym.go)
+func OpaqueString(v string) string { return v }
+func OpaqueInt64(v int64) int64    { return v }
+func OpaqueUint64(v uint64) uint64 { return v }
 func Float32(name string) float32 {
 	f, _ := strconv.ParseFloat(asString(next(name)), 32)
 	return float32(f)
